@@ -196,25 +196,26 @@ def mergeClusters (K : Consts) (x : Info) (xs : List Info) (tl : List Info) : Li
   let rest := tl.drop ext.length
   ((x :: xs).map (setCluster K · cluster), ext.map (setCluster K · cluster) ++ rest)
 
+/-- `info[j..=i]` after `t = info[i]; shift info[j..i] up by one; info[j] = t` -/
+def rotateRight1 (r : List Info) : List Info :=
+  match r.getLast? with
+  | some t => t :: r.dropLast
+  | none => r
+
 /-- one iteration of the outer loop of `buffer.rs::hb_buffer_t::sort` with
     `cmp = compare_combining_class` (`a > b` on modified ccc): `seg` = `info[start..i]` (already sorted),
     `x` = `info[i]`, `tl` = `info[i+1..len]`.  Returns the new `info[start..i+1]` and `info[i+1..len]`. -/
 def sortStep (K : Consts) (seg : List Info) (x : Info) (tl : List Info) : List Info × List Info :=
   -- j = i; while j > start && cmp(info[j-1], info[i]) { j -= 1 }
-  let k := (seg.reverse.takeWhile (fun y => y.mcc > x.mcc)).length
-  if k = 0 then (seg ++ [x], tl)          -- i == j: continue
-  else
-    let keep := seg.take (seg.length - k)
-    let moved := seg.drop (seg.length - k)
+  let moved := (seg.reverse.takeWhile (fun y => y.mcc > x.mcc)).reverse     -- info[j..i]
+  let keep := (seg.reverse.dropWhile (fun y => y.mcc > x.mcc)).reverse      -- info[start..j]
+  match moved with
+  | [] => (seg ++ [x], tl)                -- i == j: continue
+  | m :: ms =>
     -- self.merge_clusters(j, i + 1)
-    match moved ++ [x] with
-    | [] => (seg ++ [x], tl)              -- unreachable
-    | m :: ms =>
-      let (r, tl') := mergeClusters K m ms tl
-      -- t = info[i]; shift info[j..i] up by one; info[j] = t
-      match r.getLast? with
-      | some t => (keep ++ t :: r.dropLast, tl')
-      | none => (keep ++ r, tl')          -- unreachable
+    let r := mergeClusters K m (ms ++ [x]) tl
+    -- move item i to occupy place for item j, shift what's in between
+    (keep ++ rotateRight1 r.1, r.2)
 
 /-- src: buffer.rs::hb_buffer_t::sort(start, end, compare_combining_class):
     `seg` = the sorted prefix `info[start..i]`, `n` = `end - i`, `tl` = `info[i..len]`.
@@ -383,9 +384,17 @@ theorem length_sortStep (K : Consts) (seg : List Info) (x : Info) (tl : List Inf
   simp only
   split
   · rfl
-  · split
-    · rfl
-    · split <;> simp [length_mergeClusters]
+  · simp [length_mergeClusters]
+
+theorem length_rotateRight1 (r : List Info) : (rotateRight1 r).length = r.length := by
+  unfold rotateRight1
+  cases h : r.getLast? with
+  | none => rfl
+  | some t =>
+    have hne : r ≠ [] := by intro h0; subst h0; simp at h
+    simp only [List.length_cons, List.length_dropLast]
+    have := List.length_pos_iff.mpr hne
+    omega
 
 theorem length_sortStep1 (K : Consts) (seg : List Info) (x : Info) (tl : List Info) :
     (sortStep K seg x tl).1.length = seg.length + 1 := by
@@ -393,27 +402,15 @@ theorem length_sortStep1 (K : Consts) (seg : List Info) (x : Info) (tl : List In
   simp only
   split
   · simp
-  · rename_i hk
-    split
-    · simp
-    · rename_i m ms hm
-      have hlen : (m :: ms).length = (seg.drop (seg.length -
-          (seg.reverse.takeWhile (fun y => y.mcc > x.mcc)).length)).length + 1 := by
-        rw [← hm]; simp
-      have hk2 := length_takeWhile_le (fun y : Info => y.mcc > x.mcc) seg.reverse
-      simp only [List.length_reverse] at hk2
-      have hr : (mergeClusters K m ms tl).1.length = (m :: ms).length := by
-        simp [mergeClusters]
-      split
-      · rename_i t ht
-        simp only [List.length_append, List.length_cons, List.length_dropLast, List.length_take]
-        rw [hr, hlen]
-        simp only [List.length_drop]
-        omega
-      · simp only [List.length_append, List.length_take]
-        rw [hr, hlen]
-        simp only [List.length_drop]
-        omega
+  · rename_i m ms hm
+    have hsplit : seg.reverse = seg.reverse.takeWhile (fun y => y.mcc > x.mcc) ++
+        seg.reverse.dropWhile (fun y => y.mcc > x.mcc) := List.takeWhile_append_dropWhile.symm
+    have hlen := congrArg List.length hsplit
+    have hm' := congrArg List.length hm
+    simp only [List.length_reverse, List.length_append, List.length_cons] at hlen hm'
+    simp only [List.length_append, List.length_reverse, length_rotateRight1, mergeClusters,
+      List.length_map, List.length_cons, List.length_nil]
+    omega
 
 theorem length_sortGo (K : Consts) (seg : List Info) (n : Nat) (tl : List Info) (h : n ≤ tl.length) :
     (sortGo K seg n tl).length = seg.length + tl.length := by
